@@ -71,6 +71,12 @@ def check(ck):
               '(the published dictionaries are edited in place when a part '
               'of one daughter is deleted later)',
               c11.r11_3)
+    from . import c17
+    ck.shared('R10.17', 'what the store reports is keyed by the absolute '
+              'path of the node as the tree stands now: path_for() is '
+              'computed from the outer links at every call (no path '
+              'remembered from before a move)',
+              c17.r17_5)
 
 
 def _ret_tuples(fi):
